@@ -422,12 +422,12 @@ func (w *world) dump() []string {
 // ------------------------------------------------------------------- oracle
 
 type subSnap struct {
-	id               int
-	kind             string
-	open             bool // the reader reads freely (prompt, or gated and unleashed)
-	subCall, subRet  int64
-	cancelAt         int64
-	got              []recv
+	id              int
+	kind            string
+	open            bool // the reader reads freely (prompt, or gated and unleashed)
+	subCall, subRet int64
+	cancelAt        int64
+	got             []recv
 }
 
 // judge checks the recorded logs against the statement. It is called at
@@ -502,44 +502,44 @@ func (w *world) judge(where string) {
 // called) and returns a description of a shortest cycle, or "".
 func orderCycle(bcs []bc, subs []subSnap, name func(int) string) string {
 	n := len(bcs)
-	type edge struct {
-		to  int
-		why string
+	// why[x][y]: 0 no edge, -1 real-time order, k+1 subscriber index k
+	why := make([][]int32, n+1)
+	for i := range why {
+		why[i] = make([]int32, n+1)
 	}
-	adj := make([][]edge, n+1)
-	has := make([]map[int]bool, n+1)
-	add := func(x, y int, why string) {
-		if has[x] == nil {
-			has[x] = map[int]bool{}
+	adj := make([][]int, n+1)
+	add := func(x, y int, w int32) {
+		if why[x][y] == 0 {
+			why[x][y] = w
+			adj[x] = append(adj[x], y)
 		}
-		if has[x][y] {
-			return
-		}
-		has[x][y] = true
-		adj[x] = append(adj[x], edge{y, why})
 	}
-	for _, s := range subs {
+	for k, s := range subs {
 		for i := 1; i < len(s.got); i++ {
-			add(s.got[i-1].v, s.got[i].v, fmt.Sprintf("subscriber %d received %s before %s", s.id, name(s.got[i-1].v), name(s.got[i].v)))
+			add(s.got[i-1].v, s.got[i].v, int32(k+1))
 		}
 	}
-	// real-time order; only delivered values matter for a cycle through receives,
-	// but the relation is transitive so all returned calls are included
 	for _, x := range bcs {
 		if x.ret == 0 {
 			continue
 		}
 		for _, y := range bcs {
 			if x.v != y.v && x.ret < y.call {
-				add(x.v, y.v, fmt.Sprintf("Broadcast(%s) returned (stamp %d) before Broadcast(%s) was called (stamp %d)", name(x.v), x.ret, name(y.v), y.call))
+				add(x.v, y.v, -1)
 			}
 		}
+	}
+	describe := func(x, y int) string {
+		if k := why[x][y]; k > 0 {
+			return fmt.Sprintf("subscriber %d received %s before %s", subs[k-1].id, name(x), name(y))
+		}
+		return fmt.Sprintf("Broadcast(%s) returned (stamp %d) before Broadcast(%s) was called (stamp %d)", name(x), bcs[x-1].ret, name(y), bcs[y-1].call)
 	}
 	// Kahn
 	indeg := make([]int, n+1)
 	for x := 1; x <= n; x++ {
-		for _, e := range adj[x] {
-			indeg[e.to]++
+		for _, y := range adj[x] {
+			indeg[y]++
 		}
 	}
 	var queue []int
@@ -555,10 +555,10 @@ func orderCycle(bcs []bc, subs []subSnap, name func(int) string) string {
 		queue = queue[1:]
 		removed[x] = true
 		done++
-		for _, e := range adj[x] {
-			indeg[e.to]--
-			if indeg[e.to] == 0 {
-				queue = append(queue, e.to)
+		for _, y := range adj[x] {
+			indeg[y]--
+			if indeg[y] == 0 {
+				queue = append(queue, y)
 			}
 		}
 	}
@@ -566,26 +566,25 @@ func orderCycle(bcs []bc, subs []subSnap, name func(int) string) string {
 		return ""
 	}
 	// shortest cycle among the remaining nodes (BFS from each)
-	var best []string
+	var best []int
 	for s := 1; s <= n; s++ {
 		if removed[s] {
 			continue
 		}
 		prev := map[int]int{}
-		prevWhy := map[int]string{}
 		q := []int{s}
 		found := false
 		for len(q) > 0 && !found {
 			x := q[0]
 			q = q[1:]
-			for _, e := range adj[x] {
-				if removed[e.to] {
+			for _, y := range adj[x] {
+				if removed[y] {
 					continue
 				}
-				if e.to == s {
-					path := []string{e.why}
-					for y := x; y != s; y = prev[y] {
-						path = append([]string{prevWhy[y]}, path...)
+				if y == s {
+					path := []int{x}
+					for z := x; z != s; z = prev[z] {
+						path = append([]int{prev[z]}, path...)
 					}
 					if best == nil || len(path) < len(best) {
 						best = path
@@ -593,15 +592,18 @@ func orderCycle(bcs []bc, subs []subSnap, name func(int) string) string {
 					found = true
 					break
 				}
-				if _, ok := prev[e.to]; !ok {
-					prev[e.to] = x
-					prevWhy[e.to] = e.why
-					q = append(q, e.to)
+				if _, ok := prev[y]; !ok && y != s {
+					prev[y] = x
+					q = append(q, y)
 				}
 			}
 		}
 	}
-	return strings.Join(best, "; ")
+	var out []string
+	for i, x := range best {
+		out = append(out, describe(x, best[(i+1)%len(best)]))
+	}
+	return strings.Join(out, "; ")
 }
 
 // stuck describes what is still pending at a quiescent point ("" if nothing).
@@ -1095,17 +1097,17 @@ type lsub struct {
 }
 
 type lmodel struct {
-	subs      []*lsub
-	closed    bool
-	cur       *lbc
-	parked    *lop
-	closeRan  bool // a parked Close ran during this step
-	nextV     int
-	expRet    map[int]bool // value -> Broadcast expected to have returned
-	expSub    map[*sub]bool
-	expClose  map[*closeRec]bool
-	hit11     bool
-	hit12     bool
+	subs     []*lsub
+	closed   bool
+	cur      *lbc
+	parked   *lop
+	closeRan bool // a parked Close ran during this step
+	nextV    int
+	expRet   map[int]bool // value -> Broadcast expected to have returned
+	expSub   map[*sub]bool
+	expClose map[*closeRec]bool
+	hit11    bool
+	hit12    bool
 }
 
 type lbc struct{ v, pos int }
@@ -1175,6 +1177,14 @@ func (m *lmodel) advance() {
 			}
 		}
 	}
+}
+
+// progress identifies how far the blocked Broadcast has got ("" if none).
+func (m *lmodel) progress() string {
+	if m.cur == nil {
+		return ""
+	}
+	return fmt.Sprintf("%d@%d", m.cur.v, m.cur.pos)
 }
 
 func (m *lmodel) blocker() *lsub {
@@ -1263,8 +1273,12 @@ func lockstep(w *world, rng *mon.RNG) {
 		w.step("tokens sub %d +%d", ls.s.id, k)
 		w.give(ls.s, k)
 		ls.credit += k
+		before := m.progress()
 		m.deliver(ls)
 		m.advance()
+		if before != "" && m.progress() != before {
+			w.resumeReleased = true
+		}
 	}
 	unleash := func(ls *lsub) {
 		w.step("unleash sub %d", ls.s.id)
@@ -1285,9 +1299,14 @@ func lockstep(w *world, rng *mon.RNG) {
 			agree = false
 			return
 		}
+		wasBlocker := m.cur != nil && m.blocker() == ls
+		before := m.progress()
 		ls.live = false
 		ls.pending = nil
 		m.advance()
+		if wasBlocker && m.progress() != before {
+			w.departReleased = true
+		}
 	}
 	closeOp := func() {
 		c := w.closeAsync()
@@ -1579,9 +1598,10 @@ func runCase(t *testing.T, idx int, mode string) {
 		}
 	}
 	steps := append([]string{}, w.steps...)
+	nbcs := len(w.bcs)
 	w.mu.Unlock()
 	rec.Count("deliveries", deliveries)
-	rec.Count("broadcasts", len(w.bcs))
+	rec.Count("broadcasts", nbcs)
 	rec.Count("bcast_called_after_close_returned", afterClose)
 	rec.Count("exactly_once_pairs_demanded", w.demanded)
 	flag := func(name string, b bool) {
